@@ -1,4 +1,9 @@
 ------------------------------ MODULE Gen_C12 ------------------------------
 EXTENDS GenSearch
 DL == { <<>>, <<"d1.test">>, <<"d1.test", "d2.test">>, <<"d1.test", ".">>, <<".", "d1.test">> }
+DLenv == { <<"d1.test">>, <<"d1.test", "d2.test">> }
+EnvNone == { [ld |-> "", ro |-> ""] }
+(* the environment overrides the file: LOCALDOMAIN the search list, RES_OPTIONS the options *)
+EnvAll == { [ld |-> "", ro |-> ""], [ld |-> "l1.test", ro |-> ""], [ld |-> "", ro |-> "ndots:0"], [ld |-> "", ro |-> "ndots:2"],
+            [ld |-> "l1.test", ro |-> "ndots:2"] }
 =============================================================================
